@@ -2,6 +2,7 @@ package main
 
 import (
 	"fmt"
+	"go/token"
 	"go/types"
 	"sort"
 	"strings"
@@ -425,6 +426,78 @@ func (p *Prog) stackCoverScan(pkgSuffixes []string) []structFinding {
 			}
 		}
 		out = append(out, structFinding{name: p.fnDisplay(fn) + "#stack.covered", pos: p.fset.Position(fn.Pos()).String(), src: src, ok: ok})
+	}
+	return out
+}
+
+// trustedShapeScan (C18): a trusted function is not verified, so an edit of its
+// body would go unnoticed. For the one whose trust is "receives until the
+// channel is closed" (`untilclosed`) the claim is a shape of its SSA and is
+// decided here: every return is reached only over the not-ok edge of a
+// comma-ok channel receive, and the body has no call, store, send, select, go
+// or defer (nothing that could stop the loop early or do anything else).
+func (p *Prog) trustedShapeScan() []structFinding {
+	var out []structFinding
+	var keys []string
+	for k := range p.specs.Contracts {
+		keys = append(keys, k)
+	}
+	sort.Strings(keys)
+	for _, k := range keys {
+		c := p.specs.Contracts[k]
+		if c == nil || !c.Trusted || !c.UntilClosed {
+			continue
+		}
+		fn := p.funcs[k]
+		name := strings.TrimPrefix(k, repoModule+"/")
+		if fn != nil {
+			name = p.fnDisplay(fn)
+		}
+		ok := fn != nil && fn.Blocks != nil
+		why := ""
+		if ok {
+			for _, b := range fn.Blocks {
+				for _, ins := range b.Instrs {
+					switch x := ins.(type) {
+					case *ssa.Call, *ssa.Store, *ssa.Send, *ssa.Select, *ssa.Go, *ssa.Defer, *ssa.MapUpdate, *ssa.Panic, *ssa.RunDefers:
+						ok = false
+						why = fmt.Sprintf("instruction %T in the body", ins)
+					case *ssa.Return:
+						if len(b.Preds) == 0 {
+							ok = false
+							why = "returns without receiving"
+						}
+						for _, pr := range b.Preds {
+							iff, isIf := pr.Instrs[len(pr.Instrs)-1].(*ssa.If)
+							good := false
+							if isIf && len(pr.Succs) == 2 && pr.Succs[1] == b && pr.Succs[0] != b {
+								if ex, isEx := iff.Cond.(*ssa.Extract); isEx && ex.Index == 1 {
+									if un, isUn := ex.Tuple.(*ssa.UnOp); isUn && un.Op == token.ARROW && un.CommaOk {
+										good = true
+									}
+								}
+							}
+							if !good {
+								ok = false
+								why = "a return that is not behind the not-ok edge of a channel receive"
+							}
+						}
+						_ = x
+					}
+				}
+			}
+		} else {
+			why = "function not found"
+		}
+		pos := ""
+		if fn != nil {
+			pos = p.fset.Position(fn.Pos()).String()
+		}
+		src := "trusted as 'receives until the channel is closed': the body is a comma-ok receive loop that returns only when the channel is closed, and does nothing else"
+		if !ok {
+			src += " - NOT SO: " + why
+		}
+		out = append(out, structFinding{name: name + "#trusted.shape", pos: pos, src: src, ok: ok})
 	}
 	return out
 }
